@@ -12,6 +12,7 @@ import (
 	"net"
 	"net/http"
 	"net/url"
+	"os"
 	"strings"
 	"time"
 
@@ -288,9 +289,14 @@ func cfgFromKV(kv map[string]string) EndpointCfg {
 }
 
 // errClass is the canonical projection of Go errors (never by text, except where no sentinel exists).
+var debugErrs = os.Getenv("VERIF_DEBUG") != ""
+
 func errClass(err error) string {
 	if err == nil {
 		return "nil"
+	}
+	if debugErrs {
+		fmt.Fprintf(os.Stderr, "DEBUG err: %v\n", err)
 	}
 	var ce websocket.CloseError
 	if errors.As(err, &ce) {
